@@ -264,8 +264,9 @@ def _limits(col, rule="C10.R4"):
             "leave its limits is not moved (its step is set to 0)", str({k: (v[0], S.show(v[1])[:60]) for k, v in zeroed.items()}))
     if ok:
         trial = lo[1]
-        i = trial[2][2] if trial[2][:1] == ("sub",) else None
-        same = trial[2][:1] == ("sub",) and trial[2][1] == X and trial[3][:1] == ("sub",) and trial[3][2] == i and lo[3].target == trial[3] and hi[3].target == trial[3]
+        ca = S.coord(trial[2])
+        i = ca[1] if ca else None
+        same = ca is not None and ca[0] == X and trial[3][:1] == ("sub",) and trial[3][2] == i and lo[3].target == trial[3] and hi[3].target == trial[3]
         col.add(rule, f"{q}#limit-test-on-the-trial-coordinate", same, sx.loc(lo[3]),
                 "the coordinate tested is x[i] - step[i] and the step zeroed is that same step[i]", S.show(trial))
         step_vec = trial[3][1]
